@@ -8,6 +8,7 @@ import ThriftVerif.Facts.ExpectCompile
 #print axioms ThriftVerif.Properties.C09.field_wrap_rejected
 #print axioms ThriftVerif.Properties.C09.enum_value_exact
 #print axioms ThriftVerif.Properties.C09.enum_wrap_rejected
+#print axioms ThriftVerif.Properties.C09.implicit_enum_value_past_int32_rejected
 #print axioms ThriftVerif.Properties.C09.const_in_range
 #print axioms ThriftVerif.Properties.C09.i8_out_of_range_rejected
 #print axioms ThriftVerif.Properties.C09.struct_literal_field_twice_rejected
